@@ -834,7 +834,7 @@ def run(tier):
                     rep.cov["parts"]["selftest MC T17 BadExactAccept"] = "verifier with u1 and u2 exchanged refuted by TLC after %d states" % res.distinct
         try:
             tiny_parts = tiny_async.get(timeout=2400)
-            ora = list(ora_async.get(timeout=3000)) + list(hist_async.get(timeout=3000))
+            ora = list(ora_async.get(timeout=3000)) + eclib.get_or_report(rep, "C18", hist_async, 3000)
         finally:
             pool.terminate()
             hist_async.terminate()
